@@ -256,11 +256,38 @@ CHECKS['C14'] = dict(
                  'allocation failures are injected through the malloc/calloc/realloc/strdup interposers (errno=ENOMEM)',
                  'the outcome-variant table in h_lock.c is complete for the listed functions'])
 
+
+def c15_jobs(tier, seed):
+    t = tier == 'thorough'
+    return [
+        Job('h_tree', 'asan', args=['--universe', '8' if t else '6']),
+        Job('h_oom', 'asan'),
+    ]
+
+
+def c15_evidence(res, spec, tier):
+    d = default_evidence(res, spec, tier)
+    d['operations_covered'] = sorted(res.names.get('operations_covered', ()))
+    return d
+
+
+CHECKS['C15'] = dict(
+    title='allocation failure reported, containers unchanged and valid', level='fault_enumeration',
+    jobs=c15_jobs, evidence=c15_evidence,
+    rule='enumeration: for every allocating operation x every state of a corpus x failure injected at the k-th allocation made inside the call (k = 1..K measured by a dry run; single failure and all-subsequent-fail): '
+         'the call must either complete correctly or report failure; after a reported failure the full content/counter comparison with the model (not updated) must hold; in every case the structural walker, a battery of normal operations, '
+         'the allocation ledger at free() and ASan/UBSan must be clean, and the process must not crash. distinct = distinct (state, operation, key/variant, k, mode) tuples.',
+    exhaustive=True,
+    require=['fault_positions_injected', 'oom_reported_failure'],
+    assumptions=['allocation failures are injected through the malloc/calloc/realloc/strdup link-time interposers (NULL + errno=ENOMEM)',
+                 'for void operations "reports failure" means errno==ENOMEM with contents unchanged'])
+
 # --------------------------------------------------------------------------- manifest texts
 NOT_APPLICABLE = {}
 DESIGN_REF = {}
 LEVEL_NOTE = {}
 TECHNIQUE = {
+    'C15': 'allocator failpoints (k-th allocation of the call, single / all-subsequent) + before/after model equality + invariant walkers + ledger under ASan',
     'C14': 'lock-depth monitor in trylock/unlock interposers + probe-thread trylock, enumerated over functions x outcome classes x allocation-failure index',
     'C12': 'scribble-and-free of caller buffers + retained-copy pool re-verification + allocation-identity checks under ASan',
     'C11': 'ASan+UBSan+LSan (recover mode) + allocation ledger + poisoned guard zones over the C01-C10 workloads with exact-size caller buffers',
@@ -276,6 +303,7 @@ TECHNIQUE = {
     'C04': 'reference-model floor oracle + continuation multiset audit; CPU watchdog',
 }
 LEVEL_TEXT = {
+    'C15': 'Fault enumeration: every allocating operation is executed from every state of a corpus with each of its allocations failing in turn; the reference model, structural walkers, a follow-up battery, the allocation ledger and ASan decide.',
     'C14': 'Fault enumeration: each public function of each lockable container is executed for each outcome class it can produce and with each of its allocations failing in turn; the lock depth seen by the interposed pthread primitives must be balanced and a second thread must be able to take the lock.',
     'C12': 'Every put-like call gets throw-away exact-size buffers that are scribbled and freed immediately, every copying accessor of every container is exercised and its result retained, re-verified after later mutations and after release, and finally freed, all under ASan with an allocation ledger.',
     'C11': 'All container harnesses are re-executed on an address/undefined-behaviour/leak-checking build with exactly-sized caller buffers; every sanitizer report block is parsed and keyed by (class, library function), and a ledger proves every allocation is released with the container.',
